@@ -341,13 +341,23 @@ pub const fn ip_address_rr_type(address: &IpAddr) -> RRType {
     }
 }
 
-#[derive(Eq, PartialEq, Debug, Clone)]
+#[derive(Debug, Clone)]
 pub struct DnsEntry {
     pub(crate) name: String, // always lower case.
     pub(crate) ty: RRType,
     class: u16,
     cache_flush: bool,
 }
+
+/// Two entries are the same if name, type and class are. The cache-flush bit is
+/// not part of the class (RFC 6762 section 10.2), hence not of a record's identity.
+impl PartialEq for DnsEntry {
+    fn eq(&self, other: &Self) -> bool {
+        self.name == other.name && self.ty == other.ty && self.class == other.class
+    }
+}
+
+impl Eq for DnsEntry {}
 
 impl DnsEntry {
     const fn new(name: String, ty: RRType, class: u16) -> Self {
